@@ -186,7 +186,7 @@ def print_assumptions(module, theorems, wd):
         if m:
             cur = m.group(1); res[cur] = ''
         elif cur is not None:
-            res[cur] += line.strip() + ' '
+            res[cur] += ('\n' + line.strip() if line[:1] not in (' ', '\t') else ' ' + line.strip())
     return rc == 0, {k: v.strip() for k, v in res.items()}, out
 
 
